@@ -83,6 +83,7 @@ def run_execution(scenario, prefix: List[str], opts: Dict[str, Any]) -> Executio
         time_horizon=opts.get("time_horizon", 120.0),
         time_jump_cost=opts.get("time_jump_cost"),
         time_jump_max=opts.get("time_jump_max", 0.3),
+        thread_start_faults=opts.get("thread_start_faults", False),
     )
     env = Env(scheduler)
     result: Dict[str, Any] = {}
